@@ -95,6 +95,11 @@ Proof.
   - rewrite dyn_enter_global in H. apply some_pair_inj in H. destruct H as [<- _]. split; cbn [fst snd]; auto. apply wt_tl_set_free; auto.
   - destruct (loadtypes_enter_cases a l g) as [[d [E _]]|[E _]]; rewrite E in H; apply some_pair_inj in H; destruct H as [<- _];
       split; cbn [fst snd]; auto. apply wt_push; auto. discriminate.
+  - unfold dynguard_enter in H. cbn [fst snd] in H.
+    repeat match type of H with context [if ?b then _ else _] => destruct b end; try discriminate;
+      apply some_pair_inj in H; destruct H as [<- _]; split; auto.
+  - destruct a; try discriminate. apply some_pair_inj in H. destruct H as [<- _]. split; cbn [fst snd]; auto. apply wt_push; auto. discriminate.
+  - destruct a; try discriminate. apply some_pair_inj in H. destruct H as [<- _]. split; cbn [fst snd]; auto. apply wt_push; auto. discriminate.
 Qed.
 
 (* every state reached while running a program from a well-typed state is well typed: the final one ... *)
@@ -153,9 +158,19 @@ Definition rule (c : cm) (a : val) (s : state) : val :=
   | CDetour | CApplyWrappers =>                                                (* outer mappings win, transitively *)
       match observe GDetour s with VD cur => VD (detour_spec cur a) | o => o end
   | CDynEvalGlobal => tl_get k_dynamic_evaluate a (fst s)                      (* this thread's own function first *)
+  | CDynGuard => observe GDynStackL s                                          (* a check only *)
+  | CDynStackL | CDynStackG =>                                                 (* the entered context on top *)
+      match observe (getter_of c) s, a with VS l, VD d => VS (d :: l) | o, _ => o end
   end.
 
 Definition valid_cm (c : cm) : bool := match c with CFlag i => Nat.ltb i (length flag_scopes) | _ => true end.
+
+Lemma stack_read_push : forall cls n k d s, wt_store cls n s -> cls k = KStack -> k < n ->
+  stack_read k (tl_push k (VD d) s) = match stack_read k s with VS l => VS (d :: l) | o => o end.
+Proof.
+  intros cls n k d s [L W] C K. specialize (W k). rewrite C in W. unfold tl_push, stack_read.
+  destruct (st_get k s) as [[a|dd|l]|]; simpl in W; try discriminate; rewrite st_get_set_same by lia; reflexivity.
+Qed.
 
 Lemma get_context_push : forall d l, wt_store lclass nkeys l -> get_context (tl_push k_context (VD d) l) = VD d.
 Proof.
@@ -254,6 +269,13 @@ Proof.
       destruct (st_get g_ondemand_types g) as [[x|x|[|x r]]|] eqn:G; try discriminate W; try (exfalso; eapply N; eauto; fail).
       cbn [truthy v_none]. unfold v_empty_dict. destruct (py_update_dict [] a) as [d' Hd']. rewrite Hd'. intros E.
       apply some_pair_inj in E. destruct E as [_ E]. discriminate E.
+  - unfold dynguard_enter in H. cbn [fst snd] in H.
+    repeat match type of H with context [if ?b then _ else _] => destruct b end; try discriminate;
+      apply some_pair_inj in H; destruct H as [<- _]; reflexivity.
+  - destruct a as [x|d|x]; try discriminate. apply some_pair_inj in H. destruct H as [<- _]. unfold observe. cbn [fst snd].
+    eapply stack_read_push; [eassumption | reflexivity | apply Nat.ltb_lt; vm_compute; reflexivity].
+  - destruct a as [x|d|x]; try discriminate. apply some_pair_inj in H. destruct H as [<- _]. unfold observe. cbn [fst snd].
+    eapply stack_read_push; [eassumption | reflexivity | apply Nat.ltb_lt; vm_compute; reflexivity].
 Qed.
 
 (* inside the block, after any part of the body that does not let an exception escape (nested scopes of any
